@@ -21,6 +21,16 @@ GROUPS = [
       enforce='Label__transform', bound='loop-free: all doubles, both reflection states'),
     P('reference_transform', 'transform', 'h_reference_transform', tu='src/reference.cpp', roots=['gdstk::Reference::transform'],
       enforce='Reference__transform', bound='loop-free: all doubles, both reflection states'),
+    P('rep_transform_rect', 'transform', 'h_rep_transform', tu='src/repetition.cpp', roots=['gdstk::Repetition::transform'],
+      enforce='Repetition__transform', harness='harness/c11.c', models=['models/libm_contracts.h', 'models/alloc_models.h'],
+      defines={'VF_FIXED_TYPE': 1}, unwind=3, kind='unbounded', timeout=900,
+      bound='Rectangular kind: loop-free, complete over all doubles, both reflection states, all column/row counts'),
+    P('rep_transform_regular', 'transform', 'h_rep_transform', tu='src/repetition.cpp', roots=['gdstk::Repetition::transform'],
+      enforce='Repetition__transform', harness='harness/c11.c', models=['models/libm_contracts.h', 'models/alloc_models.h'],
+      defines={'VF_FIXED_TYPE': 2}, unwind=3, kind='unbounded', timeout=900,
+      bound='Regular kind: loop-free, complete over all doubles, both reflection states, all column/row counts'),
+    # ExplicitX / ExplicitY branches of Repetition::transform: NOT claimed.  CBMC mis-evaluates a[GK] when the pointer a is
+    # loaded from a union member (Repetition.coords.items): the tautology GK == 1 ==> a[GK] == a[1] FAILS (DESIGN.md 9.8).
 ]
 TRUSTED_BASE = ['clang 14 AST', 'tools/cxx2c.py lowering', 'cbmc 6.11.0 (dfcc + SAT)', 'side-car contracts; spec/geom_spec.h']
 ASSUMPTIONS = ['cos and sin and the double operations + - * are uninterpreted functions (sound over-approximation: what holds for arbitrary functions holds for IEEE arithmetic)',
